@@ -446,7 +446,7 @@ def registration_case(obs, rng, ctx, spec):
                    for k in range(n)]
         in_order = [dummies[k] for k in order]
         want = expected_winner(builtin, builtin_spec, in_order)
-        with registry_sandbox() as reg:
+        with registry_sandbox():
             get_dataset_convention(marked)
             for d in in_order:
                 r = obs.call('register_convention', register_convention, d)
@@ -484,7 +484,6 @@ def registration_case(obs, rng, ctx, spec):
             plain = obs.call('get_dataset_convention', get_dataset_convention, other)
             obs.expect(plain is builtin, 'registered conventions that do not match change nothing',
                        lambda: {'got': getattr(plain, '__name__', None), 'want': builtin_name}, mech='registration-leak')
-            obs.expect(list(reg.registered_conventions[-n:]) == in_order, 'registry lists the manual registrations in order')
             obs.sig('reg', conv, tuple(specs), order)
             if 'b' not in SAMPLED and kind.startswith('tie') and n >= 2:
                 SAMPLED.add('b')
